@@ -30,12 +30,29 @@ type Sim struct {
 	LastSites    []int  // sites of non-canonical events (bounded), for culprit naming
 	Preemptions  uint64
 
-	trigAt  uint64
-	trigs   []trigger
-	onYield func(site int) // scheduler or fine-grained invariant hook
-	raceLax bool
-	quiet   int // >0: logging / sampling code is running; nothing may be drawn or counted
+	// EventLog records, for every map-iteration event served from the schedule tape, its
+	// site and the tape positions it consumed (only when RecordEvents is set).
+	RecordEvents bool
+	EventLog     []IterEvent
+
+	trigAt       uint64
+	trigs        []trigger
+	onYield      func(site int) // scheduler or fine-grained invariant hook
+	raceLax      bool
+	lastPermuted bool
+	quiet        int // >0: logging / sampling code is running; nothing may be drawn or counted
 }
+
+// IterEvent is one map-iteration event with >= 2 keys.
+type IterEvent struct {
+	Site       int
+	Start, End int  // positions on the schedule tape [Start, End)
+	Permuted   bool // served in non-canonical order
+}
+
+// RecordEventsDefault makes every new Sim record its iteration events (used while a
+// violation's schedule is being refined to a single site).
+var RecordEventsDefault bool
 
 type OrderMode int
 
@@ -61,7 +78,7 @@ func (s StepBudget) Error() string {
 var active atomic.Pointer[Sim]
 
 func NewSim(t, s *Tape) *Sim {
-	return &Sim{T: t, S: s, StepLimit: 50_000_000, trigAt: ^uint64(0)}
+	return &Sim{T: t, S: s, StepLimit: 50_000_000, trigAt: ^uint64(0), RecordEvents: RecordEventsDefault}
 }
 
 // Activate makes s the simulator the instrumented code talks to.
@@ -155,6 +172,14 @@ func (s *Sim) perm(site, n int) []int {
 	}
 	s.IterEvents++
 	var p []int
+	start := 0
+	if s.RecordEvents && s.OrderMode == OrderTape {
+		start = s.S.Pos()
+		defer func() {
+			s.EventLog = append(s.EventLog, IterEvent{Site: site, Start: start, End: s.S.Pos(), Permuted: s.lastPermuted})
+		}()
+	}
+	s.lastPermuted = false
 	switch s.OrderMode {
 	case OrderCanonical:
 	case OrderReverse:
@@ -197,6 +222,7 @@ func (s *Sim) perm(site, n int) []int {
 	h := s.SchedHash
 	h = (h ^ uint64(site+1)) * 0x100000001b3
 	if p != nil {
+		s.lastPermuted = true
 		s.IterPermuted++
 		for _, x := range p {
 			h = (h ^ uint64(x+7)) * 0x100000001b3
